@@ -261,19 +261,20 @@ var NamePool = []string{
 var SmallPool = []string{"a", "b", "ab", "a-b", "a.b", "c", "a0", "d"}
 
 type TreeCfg struct {
-	MaxEntries   int
-	MaxDepth     int
-	Names        []string
-	Kinds        []Kind // allowed kinds (dirs always allowed)
-	Xattrs       bool
-	XattrNS      []string // namespaces for xattrs, default user. (+trusted. security. when privileged)
-	Hardlinks    bool
-	SpecialLinks bool     // also hard-link fifos and device nodes
-	BigFiles     bool     // allow sizes around and above 32 KiB
-	Uids         []uint32 // pool
-	LongNames    bool
-	BadUTF8      bool
-	SymTargets   []string // extra symlink targets
+	MaxEntries      int
+	MaxDepth        int
+	Names           []string
+	Kinds           []Kind // allowed kinds (dirs always allowed)
+	Xattrs          bool
+	XattrNS         []string // namespaces for xattrs, default user. (+trusted. security. when privileged)
+	Hardlinks       bool
+	SpecialLinks    bool     // also hard-link fifos and device nodes
+	BigFiles        bool     // allow sizes around and above 32 KiB
+	Uids            []uint32 // pool
+	LongNames       bool
+	BadUTF8         bool
+	SymTargets      []string // extra symlink targets
+	SiblingSuffixes []string // suffixes for order-sensitive sibling names (nil = default set)
 }
 
 var DefaultKinds = []Kind{KFile, KFile, KFile, KSymlink, KFifo, KChar, KBlock}
@@ -303,7 +304,11 @@ func genName(t *rapid.T, cfg *TreeCfg, label string, siblingDirs []string) strin
 		// below or above '/': bytewise and component-wise orders then differ
 		d := siblingDirs[rapid.IntRange(0, len(siblingDirs)-1).Draw(t, label+"sd")]
 		if len(d) < 200 {
-			return d + rapid.SampledFrom([]string{"-b", " ", "!", "#", "+", ",", "-", ".", ".b", "0", "~", "\x01"}).Draw(t, label+"suf")
+			sfx := cfg.SiblingSuffixes
+			if sfx == nil {
+				sfx = []string{"-b", " ", "!", "#", "+", ",", "-", ".", ".b", "0", "~", "\x01"}
+			}
+			return d + rapid.SampledFrom(sfx).Draw(t, label+"suf")
 		}
 	}
 	return rapid.SampledFrom(pool).Draw(t, label)
